@@ -77,6 +77,7 @@ template <size_t K> struct ROp {
         else if (op == "left_shift_1.c") { bool z; left_shift_1(z, P(0), P(1)); ret = z ? "1" : "0"; }
         else if (op == "right_shift_1.c") { bool z; right_shift_1(z, P(0), P(1)); ret = z ? "1" : "0"; }
         else if (op == "arazi_qi") arazi_qi(P(0), P(1));
+        else if (op == "mod_n.l") { Integer z(x[0].c_str()); ruint<K + 1> b(z); mod_n(P(0), b, P(1)); }     // (a, wide b, n)
         else if (op == "mulin.w") mul(P(0), (uint64_t) s);
         else if (op == "laddmul.c") { bool r; laddmul(r, P(0), P(1), P(2), P(3), P(4)); ret = r ? "1" : "0"; }
         else if (op == "exp_mod.w") exp_mod(P(0), P(1), (uint64_t) s, P(2));
